@@ -36,12 +36,13 @@ class Outcome:
 
 class Case:
     def __init__(self, name, fn, make, post, *, modular=None, noraise=True, frozen=(), canary=None, timeout=30.0,
-                 loop_bound=64, circuit_model=False, cover=True, native_call=None, replay_args=None):
+                 loop_bound=64, circuit_model=False, cover=True, native_call=None, replay_args=None, freeze=None):
         self.name, self.fn, self.make, self.post = name, fn, make, post
         self.modular = modular or {}
         self.noraise, self.frozen, self.canary, self.timeout = noraise, frozen, canary, timeout
         self.loop_bound, self.circuit_model, self.cover = loop_bound, circuit_model, cover
         self.native_call = native_call
+        self.freeze = freeze                # callable(args) -> [(name, ndarray)] further arrays that must not be written
         self.replay_args = replay_args      # (model, args, kwargs) -> (concrete args, kwargs) for modular cases
 
 
@@ -120,12 +121,18 @@ def run_case(case: Case):
         for i in case.frozen:
             if isinstance(args[i], np.ndarray):
                 it.freeze(f"arg{i}", args[i])
+        extra_frozen = case.freeze(args) if case.freeze else []
+        for nm, arr in extra_frozen:
+            it.freeze(nm, arr)
         result = it.run(case.fn, args, kwargs)
         out = Outcome(result=result, raised=it.raised, interp=it)
         clauses = _post_with_builtin(case, args, kwargs, out)
         for i in case.frozen:
             bad = X.Or(*[gd for gd, nm in it.frame_violations if nm == f"arg{i}"])
             clauses.append((f"frame.arg{i}_unmodified", X.Not(bad)))
+        for fnm, _ in extra_frozen:
+            bad = X.Or(*[gd for gd, nm in it.frame_violations if nm == fnm])
+            clauses.append((f"frame.{fnm}_unmodified", X.Not(bad)))
         for nm, goal in it.side:
             clauses.append((f"side.{nm}", goal))
         hyps = list(it.hyps)
